@@ -38,12 +38,18 @@ structure CondReq where
   oldIds : List Nat
   newIds : List Nat
 
+/-- `condrun2` = the same request, taken from the trace of a run that was NOT the first execution of its `Circuit` object
+(`execute*` clears quantum and classical state: the requirement is that of a first run).  In both kinds the register of the
+request is the traced register restricted to the bits written so far in THIS run (every run starts from a zeroed register). -/
+def isCondrun (k : String) : Bool := k == "condrun" || k == "condrun2"
+
 def parseCond (segs : List (List String)) : Option CondReq :=
   match segs with
-  | ["condrun", be, nq] :: ("counts" :: cs) :: ("states" :: sts) :: ("reg" :: reg) :: ("cond" :: condw) ::
+  | [kind, be, nq] :: ("counts" :: cs) :: ("states" :: sts) :: ("reg" :: reg) :: ("cond" :: condw) ::
       ("post" :: post) :: ("ids" :: ids) :: _ =>
     match splitSemis condw, splitSemis ids with
     | [ctl, [t], g :: bits], [oldIds, newIds] => do
+      if !isCondrun kind then none
       some ⟨← parseBackend be, ← nat? nq, ← nats? cs, ← sts.mapM qs?, ← words? reg, ← nats? ctl, ← word? t,
         ← parseG g, ← nats? bits, ← (if post = ["-"] then some [] else nats? post), post != ["-"], ← nats? oldIds, ← nats? newIds⟩
     | _, _ => none
@@ -87,7 +93,7 @@ def handle (line : String) : String :=
       if mine.map BitVec.toNat != Q1t.Sim.controlWord ctl w.toNat then "two-lean-models-disagree"
       else (match mine with | some cw => s!"ok {cw.toNat}" | none => "panic")
     | _, _ => "bad-op"
-  | ("condrun" :: _) :: _ =>
+  | ("condrun" :: _) :: _ | ("condrun2" :: _) :: _ =>
     match parseCond segs with
     | some r => condAnswer r
     | none => "bad-op"
@@ -157,7 +163,7 @@ def specCheck (line : String) : String :=
         else if ans.trimAscii.toString = s!"ok {(Spec.Bits.select ctl w).toNat}" then "ok"
         else s!"fail control-word expected {(Spec.Bits.select ctl w).toNat}"
       | _, _ => "fail bad-request"
-    | ("condrun" :: _) :: _ =>
+    | ("condrun" :: _) :: _ | ("condrun2" :: _) :: _ =>
       match parseCond segs with
       | some r => specCond r ans
       | none => "fail bad-request"
